@@ -10,6 +10,7 @@ from ..core import zlit, coq_list, zlist, coq_bool
 from ..translate import c18 as tr
 from ..impl import c18_gen as G
 from ..impl import c18_oracle as ORA
+from ..impl import c18_own as OWN
 
 META = {
     "property_id": "C18",
@@ -63,11 +64,16 @@ META = {
                   "residual, math.cos/sin to relate stored angles to unit complex numbers). NOT modelled (universally "
                   "quantified in the theorems, residual checked per run): scipy spsolve/factorized/eigsh, the inverse power "
                   "iteration (closed surfaces: only unit modulus, Hermitian operator and index sum/quantum are checked), the "
-                  "smoothing solves (any function). Inputs of the model taken from the implementation: mesh.edges, the "
-                  "iteration order of feat.feature_edges, cotan_edge_diagonal / cotangent weights (C08), angle defects (C07), "
-                  "the edge rotations of flag_singularities (their matching rule is checked by the oracle only), and for the "
-                  "vertex-based field the vertex bases and transport angles of SurfaceConnectionVertices (they rescale corner "
-                  "angles, not a field operation). Gauss-Bonnet (sum of defects = 2 pi chi) is a named hypothesis (C07). "
+                  "smoothing solves (any function). The dual cotangent edge weights 1/(cot a + cot b) (SIGNED: "
+                  "negative on non-Delaunay edges; 1e8 where the sum vanishes - the docstring of cotan_edge_diagonal says 1/abs(..), "
+                  "the code and the DEC dual length are signed, the signed form is the reference), the corner cotangents handed to the "
+                  "Coq model, and the whole reference operator of the oracle (own bases and parallel transport on faces) are computed "
+                  "by the harness from the geometry (vf/impl/c18_own.py), not by the library. Inputs still taken from the "
+                  "implementation: mesh.edges, the iteration order of feat.feature_edges, angle defects (C07; Gauss-Bonnet is a named "
+                  "hypothesis, tested per run), the edge rotations of flag_singularities (matching rule checked by the oracle only), "
+                  "and for the vertex-based field the vertex bases and transport angles of SurfaceConnectionVertices (they rescale "
+                  "corner angles, not a field operation). A step computed on verified stale geometry caches (known finding) is not an "
+                  "instance of the model and gets no kernel term. "
                   "Floating-point round-off is outside the theorems (they are over fields); cad_correction / TrivialConnection "
                   "(OSQP) are outside the property's quantifier and not run.",
 }
@@ -125,7 +131,8 @@ def faces_term(case, obs):
          coq_list(["(%s, %s, %s)" % tuple(zlit(x) for x in t) for t in case["F"]]),
          coq_list(["(%s, %s)" % (zlit(a), zlit(b)) for a, b in obs["edges"]]),
          zlist(obs["feat"]),
-         opt(obs.get("D") if case["cotan"] else None, lambda d: coq_list([lit(x) for x in d])),
+         # the dual cotangent weights handed to the model are the harness's own (from the geometry), not the library's
+         opt(OWN.edge_weights(case["V"], case["F"], obs["edges"]) if case["cotan"] else None, lambda d: coq_list([lit(x) for x in d])),
          coq_list(["(%s, %s)" % (lit3(X), lit3(Y)) for X, Y in obs["bases"]]),
          entries(obs["transport"]),
          entries(obs["lap"]),
@@ -146,7 +153,7 @@ def vertices_term(case, obs):
          coq_list(["(%s, %s, %s)" % tuple(zlit(x) for x in t) for t in case["F"]]),
          coq_list(["(%s, %s)" % (zlit(a), zlit(b)) for a, b in obs["edges"]]),
          zlist(obs["feat"]),
-         opt(obs.get("cots") if case["cotan"] else None, lambda d: coq_list([lit3(x) for x in d])),
+         opt(OWN.corner_cots(case["V"], case["F"]) if case["cotan"] else None, lambda d: coq_list([lit3(x) for x in d])),
          coq_list(["(%s, %s)" % (lit3(X), lit3(Y)) for X, Y in obs["bases"]]),
          entries(obs["transport"]),
          entries(obs["lap"]),
@@ -279,7 +286,7 @@ def parallel_term(case, obs, field):
          coq_list(["(%s, %s, %s)" % tuple(zlit(x) for x in t) for t in case["F"]]),
          coq_list(["(%s, %s)" % (zlit(a), zlit(b)) for a, b in obs["edges"]]),
          zlist(obs["feat"]),
-         opt(obs.get("D") if case["cotan"] else None, lambda d: coq_list([lit(x) for x in d])),
+         opt(OWN.edge_weights(case["V"], case["F"], obs["edges"]) if case["cotan"] else None, lambda d: coq_list([lit(x) for x in d])),
          coq_list([lit2(z) for z in field])]
     return "(mkpcase %s)" % " ".join(f)
 
@@ -289,7 +296,8 @@ def run(ctx):
     n_cases = 95 if quick else 800
     n_seq = 12 if quick else 150
     n_meta = 35 if quick else 400
-    ctx.rule = ("triangulated surfaces with float coordinates: bordered grids (optionally with a hole, planar or with relief, "
+    ctx.rule = ("triangulated surfaces with float coordinates: sheared anisotropic lattices with many non-Delaunay interior edges and obtuse "
+                "border triangles (both element kinds), bordered grids (optionally with a hole, planar or with relief, "
                 "jittered), fans around an interior vertex, equilateral patches with two-border-edge corner faces, open box "
                 "(border + sharp edges), closed tetra/octa/cube/icosa/bipyramid/torus; orders 1-6, elements faces/vertices, "
                 "features on/off, n_smooth in {0,1,3}, cotan/uniform weights, smooth_normals on/off; every field is driven through one of "
@@ -406,6 +414,7 @@ def run(ctx):
             if f[0] == "crash/singular-operator" and len(f) > 2 and f[2]:
                 crash_cls.append((i, f[2]["parallel"]))
     # history independence of the flagging
+    stale_idx = set()   # steps computed on verified stale geometry caches (known finding): the model describes the fresh computation
     for i, fr in fresh_of.items():
         if fr["ok"] and results[i]["ok"] and "crash" not in fr["obs"] and "crash" not in results[i]["obs"]:
             hist = ORA.history_check(cases[i], results[i]["obs"], fr["obs"])
@@ -416,12 +425,15 @@ def run(ctx):
             deterministic = len(obs_i["feat"]) > 0 and cases[i]["n_smooth"] == 0
             verified = ORA.cleared_matches_fresh(obs_i, fr["obs"]) if deterministic else (
                 "cleared_obs" in obs_i and "crash" not in obs_i["cleared_obs"]
-                and not any(k.startswith(("index/", "rotation/")) for k, _ in ORA.check(cases[i], obs_i["cleared_obs"])))
+                and not any(k.startswith(("index/", "rotation/", "operator/", "harmonic/")) for k, _ in ORA.check(cases[i], obs_i["cleared_obs"])))
             if obs_i.get("moved") and verified:
-                stale_keys = ("index/quantum", "index/sum", "index/history", "rotation/matching")
-                if any(fi == i and fk in stale_keys for fi, fk, _ in fails) or any(k in stale_keys for k, _ in hist):
+                stale_keys = ("index/quantum", "index/sum", "index/history", "rotation/matching", "operator/edge-weight",
+                              "operator/corner-cotangent", "operator/own-laplacian", "harmonic/residual", "harmonic/normalised")
+                if any(fi == i and fk in stale_keys for fi, fk, _ in fails) or any(k in stale_keys for k, _ in hist) \
+                        or any(k == "history/stale-geometry-cache" for k, _ in hist):
                     fails = [(fi, ("history/stale-geometry-cache" if (fi == i and fk in stale_keys) else fk), fm) for fi, fk, fm in fails]
                     hist = [(("history/stale-geometry-cache" if k in stale_keys else k), m) for k, m in hist]
+                    stale_idx.add(i)
             for key, msg in hist:
                 fails.append((i, key, msg + " [earlier on this mesh: %s]"
                               % [(x["elem"], x["order"], x["features"], x["n_smooth"]) for x in cases[i]["_seq"]["earlier"]]))
@@ -447,6 +459,10 @@ def run(ctx):
     # ---- 2. kernel-checked correspondence
     okidx = [i for i, r in enumerate(results) if r["ok"] and "crash" not in r["obs"]]
     n_dropped = len(results) - len(okidx)
+    # a step whose operator was built from verified stale caches is not an instance of the model (which builds the operator
+    # from the current geometry): its term is not emitted (the finding is reported instead)
+    okidx = [i for i in okidx if i not in stale_idx]
+    ctx.count("steps on verified stale geometry caches (no kernel term)", len(stale_idx))
     fidx = [i for i in okidx if cases[i]["elem"] == "faces"]
     vidx = [i for i in okidx if cases[i]["elem"] == "vertices"]
     bad_f = bad_v = []
@@ -493,6 +509,7 @@ def run(ctx):
     # cases that did not reach the kernel batch (driver error, crash of the implementation, non-finite observation): each
     # must be condemned by the oracle, and they must stay a small fraction
     uncondemned = [i for i in range(len(results)) if (i not in set(fidx) | set(vidx)) and not any(fi == i for fi, _, _ in fails)]
+    n_dropped = max(0, n_dropped)
     ctx.count("cases without kernel correspondence (crash / non-finite)", n_dropped)
     ctx.obligation("cases dropped from the kernel batches: %d of %d, each condemned by the oracle, at most 5%%" % (n_dropped, len(results)),
                    "harness", (not uncondemned) and n_dropped <= max(3, 0.05 * len(results)) and len(okidx) > 0,
